@@ -19,8 +19,8 @@ import (
 	"os"
 	"reflect"
 	"runtime"
-	"strconv"
 	"sort"
+	"strconv"
 	"strings"
 	"sync"
 	"time"
@@ -39,24 +39,28 @@ import (
 
 // gate-op codes (Model/ConnCode.v pc_code must agree)
 const (
-	opGetCode  = 1
-	opQuota    = 2
-	opClaim    = 3
-	opSetMain  = 4
-	opAppGlob  = 5
-	opAppIdxL  = 6
-	opAppIdxT  = 7
-	opSetCode  = 8
-	opSetID    = 9
-	opRmIdxL   = 10
-	opRmIdxT   = 11
-	opRmGlob   = 12
-	opDelMain  = 13
-	opDelClaim = 14
-	opGetID    = 15
-	opAdmit    = 16
-	opRelAdm   = 17
-	opOther    = 20
+	opGetCode   = 1
+	opQuota     = 2
+	opClaim     = 3
+	opSetMain   = 4
+	opAppGlob   = 5
+	opAppIdxL   = 6
+	opAppIdxT   = 7
+	opSetCode   = 8
+	opSetID     = 9
+	opRmIdxL    = 10
+	opRmIdxT    = 11
+	opRmGlob    = 12
+	opDelMain   = 13
+	opDelClaim  = 14
+	opGetID     = 15
+	opAdmit     = 16
+	opRelAdm    = 17
+	opDelCode   = 18 // Delete of the by-code record (connCodeRepo.Delete)
+	opDelID     = 19 // Delete of the by-id record
+	opOther     = 20
+	opRmCodeIx  = 21 // RemoveFromList on the target's code index
+	opGetCodeIx = 22 // GetList of the target's code index (ListByTargetClient)
 )
 
 // key prefixes of the claim and admission markers: probed from the real repository methods at start-up (a rename in
@@ -118,7 +122,7 @@ type gate struct {
 }
 
 type gatedStore struct {
-	storage.Storage // raw store: ungated passthrough for everything not overridden
+	storage.Storage           // raw store: ungated passthrough for everything not overridden
 	raw             fullStore // the caller's node store: one memory store, or the node's hybrid storage in a cluster world
 	idx             int
 	g               *gate
@@ -130,6 +134,11 @@ type gatedStore struct {
 	trace           []int
 	mu              *sync.Mutex
 	owner           map[string]int // mapping id -> caller that wrote (or tried to write) its main record
+	// listing callers: the call spawns an asynchronous clean-up goroutine whose storage calls are further actions of
+	// the same caller; the caller counts as returned only when the clean-ups it spawned are through
+	mainG    uint64        // goroutine of the call itself (0: not a listing caller)
+	found    int           // code records the call itself read
+	purgeEnd chan struct{} // one signal per finished clean-up
 }
 
 func (s *gatedStore) park(op int, key string) {
@@ -164,6 +173,17 @@ func (s *gatedStore) Get(key string) (any, error) {
 		s.park(opGetCode, key)
 	case strings.HasPrefix(key, constants.KeyPrefixRuntimeConnectionCodeByID):
 		s.park(opGetID, key)
+		v, err := s.raw.Get(key)
+		if s.mainG != 0 {
+			if gid() == s.mainG {
+				if err == nil {
+					s.found++
+				}
+			} else if err != nil {
+				s.purgeEnd <- struct{}{} // Delete: "already gone" ends the clean-up
+			}
+		}
+		return v, err
 	default:
 		s.park(opOther, key)
 	}
@@ -199,6 +219,10 @@ func (s *gatedStore) Delete(key string) error {
 		s.park(opDelClaim, key)
 	case strings.HasPrefix(key, admitPrefix):
 		s.park(opRelAdm, key)
+	case strings.HasPrefix(key, constants.KeyPrefixRuntimeConnectionCodeByCode):
+		s.park(opDelCode, key)
+	case strings.HasPrefix(key, constants.KeyPrefixRuntimeConnectionCodeByID):
+		s.park(opDelID, key)
 	default:
 		s.park(opOther, key)
 	}
@@ -243,6 +267,8 @@ func (s *gatedStore) SetList(key string, values []any, ttl time.Duration) error 
 func (s *gatedStore) GetList(key string) ([]any, error) {
 	if strings.HasPrefix(key, constants.KeyPrefixClientMappings+":") {
 		s.park(opQuota, key)
+	} else if strings.HasPrefix(key, constants.KeyPrefixIndexConnectionCodeByTarget) {
+		s.park(opGetCodeIx, key)
 	} else {
 		s.park(opOther, key)
 	}
@@ -277,6 +303,13 @@ func (s *gatedStore) RemoveFromList(key string, value any) error {
 		s.park(opRmIdxL, key)
 	case strings.HasPrefix(key, constants.KeyPrefixClientMappings+":"):
 		s.park(opRmIdxT, key)
+	case strings.HasPrefix(key, constants.KeyPrefixIndexConnectionCodeByTarget):
+		s.park(opRmCodeIx, key)
+		err := s.raw.RemoveFromList(key, value)
+		if s.mainG != 0 && gid() != s.mainG {
+			s.purgeEnd <- struct{}{} // last action of connCodeRepo.Delete
+		}
+		return err
 	default:
 		s.park(opOther, key)
 	}
@@ -290,11 +323,11 @@ var badListenAddr = "no-port-here"
 var targetAddrs = []string{"tcp://192.168.100.10:8888", "udp://10.0.0.7:53"}
 
 type thrIn struct {
-	Kind    string `json:"kind"` // "act" | "rev" | "tick"
-	Listen  int64  `json:"listen"`
-	LAddr   int    `json:"laddr"` // index into listenAddrs; -1 = malformed address
-	Fault   int    `json:"fault"` // forward-write index that fails, -1 none
-	NoCode  bool   `json:"nocode"`
+	Kind   string `json:"kind"` // "act" | "rev" | "tick" | "list" (the code's owner lists its codes)
+	Listen int64  `json:"listen"`
+	LAddr  int    `json:"laddr"` // index into listenAddrs; -1 = malformed address
+	Fault  int    `json:"fault"` // forward-write index that fails, -1 none
+	NoCode bool   `json:"nocode"`
 }
 type caseIn struct {
 	QMax    int        `json:"qmax"`
@@ -304,17 +337,18 @@ type caseIn struct {
 	TAddr   int        `json:"taddr"`
 	Threads []thrIn    `json:"threads"`
 	Sched   []int      `json:"sched"`
+	TTLms   int        `json:"ttl_ms"` // >0: activation period of the code (last-second cells: everything runs within its final second)
 	// "shared" = all callers use ONE service instance over one memory store (one node serving several clients)
-	World   string     `json:"world"` // "" = one memory store; "cluster" = every caller on its own node: hybrid storage with a private local cache, ONE shared cache, stock DefaultConfig routing
+	World string `json:"world"` // "" = one memory store; "cluster" = every caller on its own node: hybrid storage with a private local cache, ONE shared cache, stock DefaultConfig routing
 }
 type thrOut struct {
-	Res     int   `json:"res"` // 0 ok, else error enum
-	Map     int   `json:"map"` // caller index owning the returned mapping (ok activations), -1 none, -2 unknown id
-	Trace   []int `json:"trace"`
-	Pos     []int `json:"pos"` // index in the executed schedule of each storage action of the trace
-	First   int   `json:"first"` // index in the executed schedule of this caller's first storage action (-1: none)
-	Done    int   `json:"done"`  // index of the entry after which it had returned (-1: returned before any action)
-	Faulted bool  `json:"faulted"`
+	Res       int   `json:"res"` // 0 ok, else error enum
+	Map       int   `json:"map"` // caller index owning the returned mapping (ok activations), -1 none, -2 unknown id
+	Trace     []int `json:"trace"`
+	Pos       []int `json:"pos"`   // index in the executed schedule of each storage action of the trace
+	First     int   `json:"first"` // index in the executed schedule of this caller's first storage action (-1: none)
+	Done      int   `json:"done"`  // index of the entry after which it had returned (-1: returned before any action)
+	Faulted   bool  `json:"faulted"`
 	RetListen int64 `json:"retlisten"` // ListenClientID of the mapping object the call returned (0: none)
 }
 type viol struct {
@@ -322,22 +356,23 @@ type viol struct {
 	Msg  string `json:"msg"`
 }
 type caseOut struct {
-	Claim     bool     `json:"variant_claim"`
-	Cleanup   bool     `json:"variant_cleanup"`
-	Admit     bool     `json:"variant_admit"`
-	AdmitKeys int      `json:"admitkeys"` // admission markers of the scope "mappings" left in storage
-	Threads   []thrOut `json:"threads"`
-	Sched     []int    `json:"sched"`
+	Claim     bool      `json:"variant_claim"`
+	Cleanup   bool      `json:"variant_cleanup"`
+	Admit     bool      `json:"variant_admit"`
+	AdmitKeys int       `json:"admitkeys"` // admission markers of the scope "mappings" left in storage
+	Threads   []thrOut  `json:"threads"`
+	Sched     []int     `json:"sched"`
 	Mains     [][]int64 `json:"mains"`  // [owner, listen, target, taddr index(-1 other), laddr index(-1 other)] sorted
-	Glob      []int    `json:"glob"`   // owners, sorted
-	Cidx      [][]int64 `json:"cidx"`  // [client, owner] sorted
-	ByCode    []int64  `json:"bycode"` // [present, activated, revoked, activated_by, mapping owner+1]
-	ByID      []int64  `json:"byid"`
-	ClaimSet  bool     `json:"claimset"`
-	Ticked    bool     `json:"ticked"`
-	Ambiguous bool     `json:"ambiguous"`
-	Skipped   int      `json:"skipped"` // schedule entries naming a caller that was blocked outside the store (not executed, not in sched)
-	Viol      []viol   `json:"viol"`
+	Glob      []int     `json:"glob"`   // owners, sorted
+	Cidx      [][]int64 `json:"cidx"`   // [client, owner] sorted
+	ByCode    []int64   `json:"bycode"` // [present, activated, revoked, activated_by, mapping owner+1]
+	ByID      []int64   `json:"byid"`
+	ClaimSet  bool      `json:"claimset"`
+	Ticked    bool      `json:"ticked"`
+	Ambiguous bool      `json:"ambiguous"`
+	TIdx      bool      `json:"tidx"`    // the code's id is still in its owner's code index
+	Skipped   int       `json:"skipped"` // schedule entries naming a caller that was blocked outside the store (not executed, not in sched)
+	Viol      []viol    `json:"viol"`
 }
 
 func errEnum(err error) int {
@@ -410,18 +445,24 @@ func (r *routerStore) pick() fullStore {
 	}
 	return r.base
 }
-func (r *routerStore) Get(key string) (any, error)                        { return r.pick().Get(key) }
-func (r *routerStore) Set(key string, v any, ttl time.Duration) error      { return r.pick().Set(key, v, ttl) }
-func (r *routerStore) Delete(key string) error                            { return r.pick().Delete(key) }
-func (r *routerStore) Exists(key string) (bool, error)                    { return r.pick().Exists(key) }
-func (r *routerStore) SetNX(key string, v any, ttl time.Duration) (bool, error) { return r.pick().SetNX(key, v, ttl) }
+func (r *routerStore) Get(key string) (any, error) { return r.pick().Get(key) }
+func (r *routerStore) Set(key string, v any, ttl time.Duration) error {
+	return r.pick().Set(key, v, ttl)
+}
+func (r *routerStore) Delete(key string) error         { return r.pick().Delete(key) }
+func (r *routerStore) Exists(key string) (bool, error) { return r.pick().Exists(key) }
+func (r *routerStore) SetNX(key string, v any, ttl time.Duration) (bool, error) {
+	return r.pick().SetNX(key, v, ttl)
+}
 func (r *routerStore) CompareAndSwap(key string, o, n any, ttl time.Duration) (bool, error) {
 	return r.pick().CompareAndSwap(key, o, n, ttl)
 }
-func (r *routerStore) SetList(key string, v []any, ttl time.Duration) error { return r.pick().SetList(key, v, ttl) }
-func (r *routerStore) GetList(key string) ([]any, error)                   { return r.pick().GetList(key) }
-func (r *routerStore) AppendToList(key string, v any) error                { return r.pick().AppendToList(key, v) }
-func (r *routerStore) RemoveFromList(key string, v any) error              { return r.pick().RemoveFromList(key, v) }
+func (r *routerStore) SetList(key string, v []any, ttl time.Duration) error {
+	return r.pick().SetList(key, v, ttl)
+}
+func (r *routerStore) GetList(key string) ([]any, error)      { return r.pick().GetList(key) }
+func (r *routerStore) AppendToList(key string, v any) error   { return r.pick().AppendToList(key, v) }
+func (r *routerStore) RemoveFromList(key string, v any) error { return r.pick().RemoveFromList(key, v) }
 
 // view = what an observer of the cluster sees: a fresh node (empty local cache) for point reads, the shared cache for scans
 type view struct {
@@ -527,6 +568,8 @@ func runSched(c caseIn) *caseOut {
 	ttl := 10 * time.Minute
 	if hasTickInSched {
 		ttl = 250 * time.Millisecond
+	} else if c.TTLms > 0 {
+		ttl = time.Duration(c.TTLms) * time.Millisecond
 	}
 	t0 := time.Now()
 	cc, err := setup.svc.CreateConnectionCode(&services.CreateConnectionCodeRequest{TargetClientID: c.Target,
@@ -616,7 +659,7 @@ func runSched(c caseIn) *caseOut {
 		if cluster {
 			nodeStore = newNode(ctx, base) // this caller's node
 		}
-		st := &gatedStore{Storage: nodeStore, raw: nodeStore, idx: i, g: g, faultAt: t.Fault, mu: &mu, owner: owner,
+		st := &gatedStore{Storage: nodeStore, raw: nodeStore, idx: i, g: g, faultAt: t.Fault, mu: &mu, owner: owner, purgeEnd: make(chan struct{}, 16),
 			listenKey: fmt.Sprintf("%s:%s", constants.KeyPrefixClientMappings, random.Int64ToString(t.Listen))}
 		stores[i] = st
 		var sk *stack
@@ -644,6 +687,14 @@ func runSched(c caseIn) *caseOut {
 				if err == nil && m != nil {
 					mapIDs[i] = m.ID
 					retListen[i] = m.ListenClientID
+				}
+			} else if t.Kind == "list" {
+				st := stores[i]
+				st.mainG = gid()
+				codes, err := sk.svc.ListConnectionCodesByTargetClient(c.Target)
+				results[i] = err
+				for k := st.found - len(codes); err == nil && k > 0; k-- {
+					<-st.purgeEnd // records the call read but did not return are being cleaned up asynchronously
 				}
 			} else {
 				results[i] = sk.svc.RevokeConnectionCode(code, fmt.Sprintf("verif-%d", i))
@@ -757,6 +808,9 @@ func runSched(c caseIn) *caseOut {
 			doneAt[i] = len(out.Sched) - 1 // returned while blocked outside the store: "at the end"
 		}
 	}
+	if !out.Ticked && c.TTLms > 0 && time.Since(t0) > ttl/3 {
+		out.Ambiguous = true // a last-second cell that did not stay well inside the activation period
+	}
 	if out.Ticked {
 		postDur = time.Since(tTick)
 		if preDur > 25*time.Millisecond || postDur > 25*time.Millisecond {
@@ -856,6 +910,13 @@ func runSched(c caseIn) *caseOut {
 	}
 	out.ByCode = rec(constants.KeyPrefixRuntimeConnectionCodeByCode + cc.Code)
 	out.ByID = rec(constants.KeyPrefixRuntimeConnectionCodeByID + cc.ID)
+	if l, err := obs.node.GetList(constants.KeyPrefixIndexConnectionCodeByTarget + fmt.Sprintf("%d", c.Target)); err == nil {
+		for _, it := range l {
+			if sid, _ := it.(string); sid == cc.ID {
+				out.TIdx = true
+			}
+		}
+	}
 	out.ClaimSet, _ = obs.node.Exists(claimPrefix + cc.Code)
 	if am, err := obs.scan.QueryByPrefix(admitPrefix+"mappings:", 0); err == nil {
 		out.AdmitKeys = len(am)
